@@ -13,12 +13,16 @@ use subtle::{
 impl BoxedUint {
     /// Returns the Ordering between `self` and `rhs` in variable time.
     pub fn cmp_vartime(&self, rhs: &Self) -> Ordering {
-        debug_assert_eq!(self.limbs.len(), rhs.limbs.len());
-        let mut i = self.limbs.len() - 1;
-        loop {
+        // Operands of different precision are compared by value: the shorter one is
+        // zero-padded, as in the constant-time comparisons.
+        let mut i = max(self.limbs.len(), rhs.limbs.len());
+        while i > 0 {
+            i -= 1;
+            let a = *self.limbs.get(i).unwrap_or(&Limb::ZERO);
+            let b = *rhs.limbs.get(i).unwrap_or(&Limb::ZERO);
             // TODO: investigate if directly comparing limbs is faster than performing a
             // subtraction between limbs
-            let (val, borrow) = self.limbs[i].sbb(rhs.limbs[i], Limb::ZERO);
+            let (val, borrow) = a.sbb(b, Limb::ZERO);
             if val.0 != 0 {
                 return if borrow.0 != 0 {
                     Ordering::Less
@@ -26,11 +30,8 @@ impl BoxedUint {
                     Ordering::Greater
                 };
             }
-            if i == 0 {
-                return Ordering::Equal;
-            }
-            i -= 1;
         }
+        Ordering::Equal
     }
 }
 
